@@ -21,6 +21,7 @@
 From Coq Require Import List NArith ZArith Arith Bool Lia.
 From Iodine Require Import Generated.SrcConsts Base Codec CodecProofs Hostname DnsName DnsMsg Relay Negotiate NegotiateProofs.
 From Iodine Require Server ServerAuthDefs ServerAuthFinal.
+From Iodine Require Import Startup StartupProofs.
 Import ListNotations.
 Local Open Scope N_scope.
 
@@ -271,3 +272,16 @@ Proof.
   cbn zeta. rewrite E. repeat split; try reflexivity. all: rewrite <- E; exact Ha.
 Qed.
 Print Assumptions C11_new_session_starts_from_defaults.
+
+(* What the user forces on the command line reaches the handshake as documented (Startup.v: -L -I -m -r folded in command-line order;
+   the settings stage of checks/mainlib.py runs the real main() of iodine.c against it): lazy mode is 0 or 1 and the select
+   time-out at least 1 second for every option sequence; asking for immediate mode last forces the 1-second time-out; -m fixes
+   the fragment size and switches the probing off, -r switches raw mode off, and nothing else touches these three. *)
+Theorem C11_forced_settings :
+  (forall opts, (s_lazy (csettings_of opts) = 0 \/ s_lazy (csettings_of opts) = 1)%Z /\ (1 <= s_timeout (csettings_of opts))%Z) /\
+  (forall opts n, (n <= 0)%Z -> s_lazy (csettings_of (opts ++ [OL n])) = 0%Z /\ s_timeout (csettings_of (opts ++ [OL n])) = 1%Z) /\
+  (forall opts n, s_autofrag (csettings_of (opts ++ [Om n])) = false /\ s_fragsize (csettings_of (opts ++ [Om n])) = n) /\
+  (forall opts, (forall o, In o opts -> match o with Om _ | Or => False | _ => True end) ->
+     s_autofrag (csettings_of opts) = true /\ s_fragsize (csettings_of opts) = 3072%Z /\ s_raw (csettings_of opts) = true).
+Proof. exact (conj csettings_inv (conj lazy_off_last (conj m_last no_m_no_r))). Qed.
+Print Assumptions C11_forced_settings.
